@@ -334,6 +334,11 @@ func (ex *Exec) store(l *Loc, v Value) {
 		}
 		return
 	}
+	if ex.journal != nil {
+		if _, ok := ex.journal[l]; !ok {
+			ex.journal[l] = l.V
+		}
+	}
 	l.V = v
 }
 
